@@ -27,7 +27,8 @@ func main() {
 		"top-level kind (so that the comparison goes into the structure); a lookup is non-trivial when the hash holds a key equal to the probe; " +
 		"a Unique input is non-trivial when it holds two equal values; a pool hash made by a construction route other than WrapHash is a non-trivial own-entries case; " +
 		"a cache-state pair is non-trivial when the two values are equal and built from different descriptions (the same entries in another insertion order); " +
-		"a from-array case is non-trivial when the array repeats a key, each of its probes that is found is a non-trivial lookup; distinct = distinct description texts"
+		"a from-array case is non-trivial when the array repeats a key, each of its probes that is found is a non-trivial lookup; " +
+		"a URI-model pair is non-trivial when the two URI types are equal and built from different descriptions or routes; distinct = distinct description texts"
 	pcore.Do(func(c px.Context) {
 		if cfg.Replay != "" {
 			replay(c, cfg, res)
@@ -157,6 +158,7 @@ func run(p *pool, cfg *lib.Config, res *lib.Result, rng *lib.Rng, only map[strin
 	res.CorrFiles = append(res.CorrFiles, cfa.WriteTo(cfg.Out, "cases_from_array"))
 	res.CorrFiles = append(res.CorrFiles, caches)
 	res.CorrFiles = append(res.CorrFiles, ck.nameCases(cfg, nameOnly))
+	res.CorrFiles = append(res.CorrFiles, ck.uriCases(cfg))
 }
 
 func equalTexts(p *pool, ck *checker, i int) []string {
